@@ -504,6 +504,63 @@ func c19SealDeniedNs(t *testing.T, out *vh.Out) {
 	}
 }
 
+// c19OrphanRace: the use count against a writer that is not a use — the orphaning loop of revokeInternal (and tidy)
+// rewrites a child's token entry with Parent = "". Thread 0 revokes (revoke-orphan) the parent P of a use-limited child C
+// and is held right after it has read C's entry (a storage Get that has been performed but has not returned yet); thread 1
+// then spends one use of C; thread 0 continues. The decrement
+// must survive: C authorises n requests in total. Op line: orphanrace <n> => uses:<authorised requests in total>
+func c19OrphanRace(t *testing.T, out *vh.Out) {
+	for n := 2; n <= 3; n++ {
+		p, c, root, _ := c19Setup(t)
+		par := vhCreateToken(t, c, root, map[string]any{"ttl": "2h", "policies": []string{"root"}})
+		cl, resp := vhReq(c, logical.UpdateOperation, "auth/token/create", par, map[string]any{"ttl": "1h", "policies": []string{"default"}, "num_uses": n})
+		if cl != "ok" || resp == nil || resp.Auth == nil {
+			t.Fatalf("orphanrace child: %s", cl)
+		}
+		child := resp.Auth.ClientToken
+		salted := c19Salted(t, c, child)
+		out.Reset()
+		// thread 0: the revocation of P, held right after the orphaning loop has READ C's entry (outside C's lock)
+		hit, release := p.HoldAfterGet("sys/token/id/"+salted, "revokeInternal")
+		done0 := make(chan string, 1)
+		go func() {
+			done0 <- vh.Catch(func() string {
+				cl, _ := vhReq(c, logical.UpdateOperation, "auth/token/revoke-orphan", root, map[string]any{"token": par})
+				return cl
+			})
+		}()
+		held := false
+		select {
+		case <-hit:
+			held = true
+		case <-time.After(3 * time.Second):
+		}
+		// thread 1: one use of C while thread 0 holds its copy
+		use1, _ := vhReq(c, logical.ReadOperation, "auth/token/lookup-self", child, nil)
+		release()
+		r0 := <-done0
+		if !held || r0 != "ok" {
+			t.Fatalf("orphanrace: revocation of the parent: held=%v result=%s", held, r0)
+		}
+		total := 0
+		if use1 == "ok" {
+			total++
+		}
+		for i := 0; i < n+3; i++ {
+			if cl, _ := vhReq(c, logical.ReadOperation, "auth/token/lookup-self", child, nil); cl != "ok" {
+				break
+			}
+			total++
+		}
+		viol := ""
+		if total > n {
+			viol = fmt.Sprintf("!VIOL:a token created with num_uses=%d authorised %d requests: a use spent while its parent was being revoked (orphaning rewrite of the entry) was lost#use-count-lost-update-on-orphaning", n, total)
+		}
+		out.Op(fmt.Sprintf("uses:%d%s", total, viol), "orphanrace", vh.I(int64(n)))
+		_ = c.Shutdown()
+	}
+}
+
 // c19NsLast: a token of the ROOT namespace whose policy reaches into a child namespace spends its last use on a request
 // into that child namespace (the n-1 uses before it in either namespace). The token (whose entry and lease live in the
 // root namespace) must be revoked all the same. Op line: nslast <n> <k> => <class of the last request>|token:<state>
@@ -556,6 +613,7 @@ func TestVerifC19(t *testing.T) {
 	rng := vh.NewRand(vh.Seed())
 	c19SealDenied(t, out)
 	c19SealDeniedNs(t, out)
+	c19OrphanRace(t, out)
 	c19NsLast(t, out)
 	cases := vh.EnvInt("VERIF_C19_CASES", 150)
 	if vh.Thorough() {
